@@ -6,6 +6,7 @@
 //!   bgpfu-dst worker ...                     (internal)
 
 mod core;
+mod doc;
 mod driver;
 mod hashseed;
 mod props;
